@@ -324,6 +324,32 @@ def _front_end(repo, res, mod):
     if len(loops) != 1:
         raise AnalysisError('%s: expected one loop over self.all_constr, found %d' % (dm.fq, len(loops)))
     loop = loops[0]
+    if mod == 'dro':
+        # an expectation of a piecewise function is one constraint (sup_P E[max_k a_k] <= t): st() must store the
+        # ExpPWConstr object itself.  Stored piece by piece it becomes max_k sup_P E[a_k] <= t, which is weaker.
+        epw = repo.module('lp').classes.get('ExpPWConstr')
+        st_loop = None
+        for n in walk_no_nested(st.node):
+            if isinstance(n, ast.For) and isinstance(n.iter, ast.Name) and n.iter.id == (st.vararg or ''):
+                st_loop = n
+                break
+        if epw is None or st_loop is None:
+            raise AnalysisError('dro.Model.st: ExpPWConstr / per-argument loop not found')
+        ctx0 = Ctx(repo, st.module, st_loop.target.id, epw, None)
+        leaf0 = dispatch(st_loop.body, ctx0)
+        if leaf0 is None:
+            raise AnalysisError('dro.Model.st: no statements reached for an ExpPWConstr')
+        txt0 = ' '.join(ntext(s_) for s_ in leaf0.stmts[:3])
+        whole = ('self.all_constr.append(%s)' % st_loop.target.id) in txt0
+        pieces = '.pieces' in txt0
+        if not whole and not pieces and not leaf0.raises():
+            raise AnalysisError('dro.Model.st: what is stored for an ExpPWConstr (`%s`) is not interpreted' % txt0[:60])
+        res.inst({'front_end': 'dro', 'ExpPWConstr stored whole': whole}, whole)
+        if not whole:
+            res.fail(Finding(RULE, st.fq, 'ExpPWConstr split into its pieces',
+                             'dro.Model.st stores an expectation-of-piecewise constraint piece by piece (`%s`): each piece '
+                             'is then dualised on its own, i.e. max_k sup_P E[a_k] <= t instead of sup_P E[max_k a_k] <= t'
+                             % txt0[:60], repo.where(st, st_loop), {'props': ['C04', 'C03', 'C06']}))
     for k in acc:
         if k.name in ('PWConstr',):
             # pieces are re-submitted one by one (ro) / extended into all_constr (dro)
